@@ -1,6 +1,6 @@
 def harness_args(run, tier, n, cases):
     base = cases[:-len(".cases")]
-    e2e = 18 if tier == "quick" else 120
+    e2e = 18 if tier == "quick" else 126
     return [
         ["-seed", run.seed, "-n", n, "-tier", tier, "-pass", "decode", "-out", cases],
         ["-seed", run.seed, "-n", max(500, n // 2), "-tier", tier, "-pass", "reader", "-out", base + "_reader.cases"],
@@ -26,6 +26,7 @@ PROP = {
     ],
     "assumptions": [
         "the receive loop is modelled one byte at a time (grouping of bytes into Reads is irrelevant except for time); virtual time advances only between segments; readFrame/readN process arrived bytes in zero time",
+        "a segment without bytes is one conn.Read returning (0, nil) (net.Pipe zero-length Write, wrapped conns via WithDialer; never on *net.TCPConn): it never starts a frame (idle stays idle); inside a frame it re-arms the deadline like any other Read return, so T8 counts from it - this is what readN's loop does and the model (arrive) follows the code here; the harness oracle uses the same reading",
         "a gap of exactly T8 is not a timeout (deadline = now+T8, fires only if the next arrival is strictly later) - the simulated conn and the model agree on this reading; real timers are the runtime's",
         "the SECS-II body decoder is abstract in the cell model (any function of the body bytes); the harness feeds the outcome of secs2.Decode on the same bytes as that function's value",
         "sync.Once and the shared decodeState pointer are modelled as one option cell per message family (modelled, not verified: Go memory model)",
